@@ -1408,6 +1408,7 @@ def run_loss_history(ctx, Q, J, p, case, base):
             cname = cls.__name__
             er = np.random.default_rng(eseed)        # same call order / validate flags for generic and fast
             objs, metas, kept = {}, {}, {}
+            last_pt = {}
             dead = set()
             for st in steps:
                 who, kind = st["who"], st["kind"]
@@ -1502,6 +1503,18 @@ def run_loss_history(ctx, Q, J, p, case, base):
                     meta["weights_at_step"] = None
                 # ---- ask (value and gradient in either order; hooks judge every call)
                 out = []
+                # the point this object evaluated LAST before the step comes first (a memo of "the last evaluated
+                # point" answers for the old data / weights / model exactly then); the hooks judge these calls
+                lp = last_pt.get((fast, who))
+                if lp is not None and kind not in ("create", "requery") and lp.size == model.nvar and (fam == "SE" or re_judgeable(model, lp)):
+                    for what in (["value"] if st.get("value_only") else ["value", "gradient"]):
+                        okc, val = ctx.attempt(getattr(loss, what), lp.copy())
+                        if not okc:
+                            key = f"{cname}:history:{kind}:evaluation-raises:{type(val).__name__}{sfx}"
+                            ctx.violation(key, {"error": repr(val)[:300], "what": what, "site": ctx.exc_key(val), "history": " -> ".join(hist)})
+                    ctx.count("history step: previous last point asked first")
+                if st["pts"]:
+                    last_pt[(fast, who)] = st["pts"][-1]
                 for v in st["pts"]:
                     r = {"value": None, "gradient": None}
                     whats = ["value", "gradient"]
